@@ -186,7 +186,9 @@ int main(int argc, char** argv) {
     for (uint64_t i = first; i < first + count; i++) {
       Tape t;
       t.seed = RunSeed(seed, i);
+      ArmWatchdog(60);
       RunResult rr = RunOne(t, prof);
+      ArmWatchdog(0);
       if (verbose) HPrintf("%s", rr.decoded.c_str());
       if (!rr.violations.empty()) {
         std::string path = outdir + "/replay_" + profile + "_" + std::to_string(seed) + "_" + std::to_string(i) + ".json";
@@ -205,7 +207,9 @@ int main(int argc, char** argv) {
     tier = JsonStr(doc, "tier");
     Profile prof = GetProfile(profile, tier == "thorough");
     if (cmd == "replay") {
+      ArmWatchdog(60);
       RunResult rr = RunOne(t, prof);
+      ArmWatchdog(0);
       if (verbose) HPrintf("%s", rr.decoded.c_str());
       PrintRunLine(0, rr);
       return rr.violations.empty() ? 0 : 1;
